@@ -4,17 +4,20 @@ from rules import driver, jit
 from rules.C14 import rule_globals
 
 LEVEL = 'other'
-TECHNIQUE = 'dominator / post-dominator analysis on the driver CFGs (CSR and fenv builds), known-bits abstract interpretation of the control words, whole-library scan for FP-control writers'
+TECHNIQUE = ('dominator / post-dominator analysis on the driver CFGs (CSR and fenv builds), known-bits abstract interpretation of the control words, whole-library scan for FP-control writers'
+         '; bit routing through the decoded x86 CFROUND sequence')
 CLAIM = ('Decides statically that (1) in randomx_calculate_hash the FP-environment save dominates and the restore of the saved value post-dominates every '
          'other effect, in the SSE build and in the fenv build no test compiles; (2) a reset to the fixed default word dominates every program run in all three drivers; '
          '(3) every control word the interpreter writes is a function of constants and two mode bits (known-bits), and the x86 JIT template carries the same constants; '
          '(4) no other function of the library writes the FP control state. These are the necessary structural conditions of the property; equality of digests is numeric and not claimed.'
-         ' FP-RESETWORD is an abstract interpretation of the MXCSR reads and writes of rx_reset_float_state / rx_set_rounding_mode in the known-bits domain: whatever the caller left in MXCSR, bits 6-15 become 0x9FC0 (| mode << 13).')
+         ' FP-RESETWORD is an abstract interpretation of the MXCSR reads and writes of rx_reset_float_state / rx_set_rounding_mode in the known-bits domain: whatever the caller left in MXCSR, bits 6-15 become 0x9FC0 (| mode << 13).'
+         ' The bytes of the x86 CFROUND handler change only the rounding-control bits of MXCSR and keep the other control bits at the reset word (X86-CFR-BITS); the saved control word is not kept in shared static storage (RACE-GLOBALS).')
 LEVEL_NOTE = ('Trusted: clang 14 AST/IR of the build flags; that JIT-emitted code changes MXCSR only through the CFROUND template (constants cross-checked); '
               'libm/libc do not change the control word.')
 EXPLANATION = ('CFG dominance rules on randomx_calculate_hash/_next/_last in configurations K0 (MXCSR intrinsics) and K1 (fenv fallback), '
                'known-bits evaluation of rx_reset_float_state / rx_set_rounding_mode / exe_CFROUND, IR scan of all functions for FP-control writers, '
-               'disassembly scan of the hand-written x86 runtime for ldmxcsr.')
+               'disassembly scan of the hand-written x86 runtime for ldmxcsr.'
+         ' X86-CFR-BITS, RACE-GLOBALS.')
 
 
 def run(ctx, R):
